@@ -310,3 +310,54 @@ Example emits_example : simple_emit go_LevelInfo Warn "m" ["k"; "v"; "odd"] = So
 Proof. reflexivity. Qed.
 Example filtered_example : simple_emit go_LevelWarn Info "m" [] = None.
 Proof. reflexivity. Qed.
+
+(* ---- several SimpleLoggers over one shared log.Logger ---- *)
+Lemma sh_run_no_capture : forall ops s,
+  Forall (fun w => w_user_prefix w = ""%string) (sh_loggers s) ->
+  sh_run false s ops = sh_spec (map w_thr (sh_loggers s)) ops.
+Proof.
+  induction ops as [|op rest IH]; intros s Hs; [reflexivity|].
+  destruct op as [thr | id l msg args].
+  - cbn [sh_run sh_step sh_spec].
+    rewrite (IH {| sh_prefix := sh_prefix s;
+                   sh_loggers := sh_loggers s ++ [{| w_thr := thr; w_user_prefix := "" |}] |}).
+    + cbn [sh_loggers]. rewrite map_app. reflexivity.
+    + cbn [sh_loggers]. apply Forall_app. split; [exact Hs|]. constructor; [reflexivity|constructor].
+  - cbn [sh_run sh_step sh_spec].
+    rewrite nth_error_map.
+    destruct (nth_error (sh_loggers s) id) as [w|] eqn:E; cbn [option_map].
+    + assert (Hw : w_user_prefix w = ""%string).
+      { rewrite Forall_forall in Hs. apply Hs. eapply nth_error_In; exact E. }
+      unfold simple_emit. destruct (simple_enabled (w_thr w) l).
+      * rewrite Hw. cbn [append]. f_equal.
+        exact (IH {| sh_prefix := simple_prefix l; sh_loggers := sh_loggers s |} Hs).
+      * f_equal. exact (IH s Hs).
+    + f_equal. exact (IH s Hs).
+Qed.
+
+(* whatever prefix the log.Logger starts with, whatever loggers are wrapped over it and when,
+   every call writes exactly what its own logger alone would write: its own label, once *)
+Lemma shared_logger_own_label : forall p0 ops,
+  sh_run simple_ctor_captures_prefix (sh_init p0) ops = sh_spec [] ops.
+Proof.
+  intros p0 ops. change simple_ctor_captures_prefix with false.
+  exact (sh_run_no_capture ops (sh_init p0) (Forall_nil _)).
+Qed.
+
+(* sensitivity: a constructor that captures the prefix picks up the label the previous wrapper left behind *)
+Definition capture_trace : list shop :=
+  [ShNew 0; ShLog 0 Info "m" []; ShNew 0; ShLog 1 Error "m" []].
+Lemma shared_capture_doubles_label :
+  nth 3 (sh_run true (sh_init "") capture_trace) None
+    = Some (simple_prefix Info ++ simple_prefix Error ++ format_message "m" [])%string /\
+  nth 3 (sh_run true (sh_init "") capture_trace) None <> nth 3 (sh_spec [] capture_trace) None.
+Proof.
+  split; [vm_compute; reflexivity|].
+  vm_compute. intro H. discriminate H.
+Qed.
+
+Example shared_logger_nontrivial :
+  sh_run simple_ctor_captures_prefix (sh_init "[app] ") capture_trace
+    = [None; Some (simple_prefix Info ++ format_message "m" [])%string; None;
+       Some (simple_prefix Error ++ format_message "m" [])%string].
+Proof. vm_compute. reflexivity. Qed.
